@@ -686,6 +686,18 @@ func init() {
 		apiStateBits += "0"
 		apiAttrs += ",0"
 	}
+	// validation reports that share their first (tag, attribute, line): a document with two invalid attributes and one with the
+	// first of them only — an error value kept and extended between compilations shows as repeated or foreign details
+	for _, d := range []string{
+		`<mjml><mj-body><mj-section><mj-column><mj-text bogus-one="1">V</mj-text><mj-image src="i.png" bogus-two="2"/></mj-column></mj-section></mj-body></mjml>`,
+		`<mjml><mj-body><mj-section><mj-column><mj-text bogus-one="1">W</mj-text><mj-divider/></mj-column></mj-section></mj-body></mjml>`,
+	} {
+		apiDocs = append(apiDocs, d)
+		apiOkBits += "1"
+		apiValBits += "1"
+		apiStateBits += "0"
+		apiAttrs += ",0"
+	}
 	for _, cl := range isoClasses() {
 		for _, d := range []string{cl.a, cl.b} {
 			apiDocs = append(apiDocs, d)
